@@ -62,6 +62,26 @@ var _ = token.NoPos
 // specification vocabulary: assumed facts about trusted APIs) into a global
 // SMT axiom. Axioms are listed as assumptions in every evidence file.
 func (c *Ctx) InstallAxioms() error {
+	// global ghost variables become heap components GV_<name>
+	for i, gv := range c.spec.GhostVars {
+		fi := &FuncInfo{Key: "ghostvar:" + gv.Name, Pkg: c.pkgs[0]}
+		fx := &FuncExec{ctx: c, reg: c.reg, pkg: c.pkgs[0], fi: fi}
+		var srt string
+		var err error
+		func() {
+			defer func() {
+				if r := recover(); r != nil {
+					err = fmt.Errorf("ghostvar %s: %v", gv.Name, r)
+				}
+			}()
+			srt, _ = fx.typeFromString(gv.Type, c.pkgByPath(c.spec.GhostVarPkg[i]))
+		}()
+		if err != nil {
+			return err
+		}
+		c.reg.addComp("GV_"+gv.Name, srt)
+		c.reg.ghostVars[gv.Name] = "GV_" + gv.Name
+	}
 	for _, ax := range c.spec.Axioms {
 		var pkgInfo = c.pkgs[0]
 		for _, p := range c.pkgs {
